@@ -215,7 +215,7 @@ temporary_stack& foonathan::memory::get_temporary_stack(std::size_t initial_size
 
 namespace
 {
-    thread_local alignas(temporary_stack) char temporary_stack_storage[sizeof(temporary_stack)];
+    alignas(temporary_stack) thread_local char temporary_stack_storage[sizeof(temporary_stack)];
     thread_local bool is_created = false;
 
     temporary_stack& get() noexcept
@@ -240,7 +240,7 @@ temporary_stack_initializer::temporary_stack_initializer(std::size_t initial_siz
     create(initial_size);
 }
 
-temporary_stack_initializer::~temporary_stack_initializer()
+temporary_stack_initializer::~temporary_stack_initializer() noexcept
 {
     if (is_created)
         get().~temporary_stack();
